@@ -127,3 +127,23 @@ fn chunk_reader<const KF: usize>() {
     std::mem::forget(d);
     kani::cover!(true, "end reached");
 }
+
+// @ob id=color_types unwind=4 stubs=fmt tier=quick timeout=300 bound="PngColorType::from_byte on every byte: exactly 0, 2, 3, 4, 6 are colour types (PNG 1.2 section 4.1.1); samples per pixel 1 / 3 / 2 / 4 for grey / RGB / grey+alpha / RGBA (palette not asserted: the decoder counts it after expansion); has_alpha exactly for 4 and 6"
+fn color_types<const KF: usize>() {
+    let b: u8 = kani::any();
+    let r = PngColorType::from_byte(b);
+    let valid = b == 0 || b == 2 || b == 3 || b == 4 || b == 6;
+    match &r {
+        Ok(ct) => {
+            assert!(valid, "an undefined colour type byte is accepted");
+            let want = match b { 0 => 1, 2 => 3, 4 => 2, 6 => 4, _ => ct.channels() };
+            assert!(ct.channels() == want, "samples per pixel differ from the PNG specification");
+            assert!(ct.has_alpha() == (b == 4 || b == 6), "alpha presence differs from the PNG specification");
+        }
+        Err(_) => assert!(!valid, "a defined colour type is rejected"),
+    }
+    std::mem::forget(r);
+    kani::cover!(b == 6, "RGBA reached");
+    kani::cover!(b == 5, "undefined type reached");
+    kani::cover!(true, "end reached");
+}
